@@ -38,6 +38,13 @@ def run(ctx) -> None:
     ctx.guard("C17.context", empty_partial_rule, "C17.context", ("BaseWorklist.__enter__", "BaseWorklist.__exit__", "BaseWorklist.save", "BaseWorklist.__repr__", "BaseWorklist.__str__"),
               "the empty worklist is a record list like any other: its file must be written (replacing an older, longer file) and its text shown")
     ctx.guard("C17.context", ctor_path_only)
+    from . import objmodel
+
+    ctx.guard("C17.str", objmodel.worklist_model, "C17.str")
+    ctx.guard("C17.str", format_evaluated)
+    from . import c09 as _c09
+
+    ctx.reuse("C17.context", _c09.list_overrides)
     ctx.guard("C17.context", finally_jump_rule, "C17.context", ("BaseWorklist.__exit__", "BaseWorklist.save"),
               "a refusal of save() (wrong extension, unwritable target) never reaches the caller, the with-block ends as if the file had been written")
 
@@ -203,6 +210,8 @@ def context(ctx) -> None:
         fv = ctx.fv(init, base)
         stores = [n for n in fv.cfg.nodes if n.kind == "stmt" and isinstance(n.ast, (ast.Assign, ast.AnnAssign)) and attr_of_name(n.ast.targets[0] if isinstance(n.ast, ast.Assign) else n.ast.target, init.params[0], "_filepath")]
         vals = [fv.res.resolve(n.ast.value, n.id) for n in stores if n.ast.value is not None]
+        # `None if filepath is None else Path(filepath)`: both arms
+        vals = [a_ for v in vals for a_ in ([v.body, v.orelse] if isinstance(v, ast.IfExp) else list(v.args) if is_sym(v, "alt") else [v])]
         ok = any(isinstance(v, ast.Call) and call_fname(v) == "Path" and v.args and is_name(v.args[0], "filepath") for v in vals) or any(is_name(v, "filepath") for v in vals)
         ctx.rep.check(ok, rule, f"{init.qualname}/filepath", "the configured path is stored", "the configured file path is not stored as given", where=init.where())
         # `if self._filepath:` in __exit__ means "a path was configured" only while the stored value is None or a Path object
@@ -221,6 +230,40 @@ def context(ctx) -> None:
                         ctx.rep.check(not (truthy and raw_str), rule, f"{dev.name}.__exit__/configured-test", "'a path is configured' is decided by `is not None` or on a Path object",
                                       "the path is stored as the caller's str and __exit__ tests its truth value: a worklist created with filepath='' leaves the with-block without writing "
                                       "a file and without the refusal that save('') gives", where=ex.where(cs.call))
+
+
+def format_evaluated(ctx) -> None:
+    """`format(worklist)` / f"{worklist}" show the same records as str(): a `__format__` of the worklist classes is interpreted
+    (rules/init_model.py; nothing of the repository is executed) for the empty format spec and record lists of 0, 1 and many
+    records; the result has to be the records joined by line breaks."""
+    from . import init_model
+
+    rule = "C17.str"
+    base = ctx.prog.require_class("BaseWorklist", rule)
+    n = 0
+    for dev in [base] + concrete_devices(ctx):
+        f = dev.methods.get("__format__")
+        if f is None or len(f.params) != 2:
+            continue
+        n += 1
+        ctx.rep.touch(f)
+        bad = unknown = None
+        for recs in ([], ["A;a;;;1;;10.00;;;;"], list(SAMPLE_RECORDS)):
+            kind, val = init_model.run_function(f, {f.params[0]: list(recs), f.params[1]: ""}, ctx.prog)
+            if kind == "return" and isinstance(val, str):
+                if val != "\n".join(recs) and bad is None:
+                    bad = (recs, val)
+            else:
+                unknown = unknown or recs
+        if bad is not None:
+            ctx.rep.refuted(rule, f"{f.qualname}/empty-spec", f"format() of a worklist with {len(bad[0])} record(s) and no format spec gives {len(bad[1].splitlines())} line(s): "
+                            "f-strings and format() do not show the records that str() shows", where=f.where())
+        elif unknown is not None:
+            ctx.rep.inconclusive(rule, f"{f.qualname}/empty-spec", "__format__ could not be evaluated (construct outside the interpreter's fragment)", where=f.where())
+        else:
+            ctx.rep.holds(rule, f"{f.qualname}/empty-spec", "format() without a spec shows the records like str() (evaluation table)", where=f.where())
+    if n == 0:
+        ctx.rep.holds(rule, "worklists/no-__format__", "the worklist classes do not define __format__: format() without a spec is str()")
 
 
 def ctor_path_only(ctx) -> None:
